@@ -19,6 +19,11 @@ CHECKS = {
          "Seeds are every compiling .sysl file of the repository plus generated seeds; each is recompiled under indent scaling (x2, x3, exact /2, /4), four tab rules, a blank line before every line, and four comment variants (text or bare '#', at the line's indentation or column 0) before every declaration line; quick applies one local deviation at every position of small seeds, thorough the whole corpus and pairs on small seeds. Acceptance must be preserved and the models equal once source contexts are cleared.",
          "comments are only inserted at declaration/statement boundaries; imports are read untransformed; lines inside multi-line string literals are not re-indented",
          "DESIGN.md §4 C03"),
+ "C04": ("model_checking",
+         "explicit-state exploration of the tree listener fed application blocks: all set partitions of a member alphabet into blocks x block orders x file placements, differential oracle against the joined declaration (proto equality modulo locations)",
+         "The joined declaration is first checked against its intended summary; then every partition of 7 (thorough 9) members into <=3 (4) blocks, every order of the re-opening blocks and four placements in files (one file, chain of imports, star, star with reversed import statements) is compiled by the real parser and must give the same model as the joined declaration, and one application location per block.",
+         "members are atomic; header block first; key-column and mixin lists compared in name order (their model order is the declaration order of the blocks themselves)",
+         "DESIGN.md §4 C04"),
  "C05": ("model_checking",
          "stateless DFS over all schedules of the real retrieval code under a cooperative scheduler (sync.Mutex/errgroup swapped by build overlay, reader is the harness's), global-state pruning; reference closure model",
          "For every import graph in the bound (all graphs on <=3 files with ordered import lists, named 4- and 5-file shapes, all depth limits, spelling variants of the same file) every schedule of the concurrent retrievals is executed on the real parse.Parser; each complete execution must read each included file once, include exactly the files nearer than the limit, in the text-determined order, with one outcome over all schedules; no deadlock or livelock. A full compile checks the merge order and once-only contribution in the model.",
@@ -34,6 +39,11 @@ CHECKS = {
          "All pairs (thorough: also triples) of 7 sources compiled concurrently on the real parser under the cooperative scheduler, every schedule with <=1 preemption (<=2 on small pairs; thorough <=2 everywhere): each result must equal the solo result byte-for-byte (textpb+JSON) and the global lexer-state registry must be empty afterwards. Every source is compiled under all 17 map-iteration starts (bytes identical) and in every sequence up to length 3 in one process. A -race build of the same bodies runs 384 free-running compilations as a monitor.",
          "interleavings only at hooked points and within the preemption bound; no state pruning (ANTLR state not observable); data races between points seen only by the -race monitor; map-order exhaustive for maps <= 8 entries",
          "DESIGN.md §3.2-3.3, §4 C07"),
+ "C08": ("exploration",
+         "bounded-exhaustive generation with a position-recording renderer; every located element of the compiled model compared with the recorded (file, line, column) of its declaration",
+         "The C02 specification families under six layouts and the C04 multi-block / multi-file splits are compiled; for every application, type, field, endpoint, statement and annotation the model's source_contexts must name the declaring file and the zero-based position of the first character of each declaration, one per declaration in order, with end >= start and start inside the file.",
+         "start convention per element kind as listed in evidence.assumptions; implied elements and inline attribute entries are exempt",
+         "DESIGN.md §4 C08"),
  "C18": ("model_checking",
          "explicit-state product of a reference path automaton with the real ChrootFs over all path strings up to the segment bound; loader runs on a recording filesystem",
          "Every path string over a 6-segment alphabet up to 5 (thorough 7) segments x absolute/relative x trailing slash x 7 root spellings x every wrapper operation (rename arguments independently) is pushed through the real syslutil.ChrootFs onto a recording filesystem; safety (nothing outside the root reaches the filesystem) and liveness (never-leaving spellings are served at root+canonical path) are checked on every transition. The real loader is also run on every (module spelling, import spelling) pair.",
